@@ -154,11 +154,13 @@ def s4(ctx, rep):
         raise AnchorError("metrics_for_configuration: table query / fidelity values not found")
     ok = len(app) == 1
     if ok:
+        from ..engine import deref
         v = app[0].args[0]
-        ds = [d for d in local_defs(f, U(v)) if not isinstance(d, tuple)]
-        ok = len(ds) == 1 and isinstance(ds[0], ast.Call) and fn_name(ds[0]) == "dict" and isinstance(ds[0].args[0], ast.Call) \
-            and fn_name(ds[0].args[0]) == "zip" and "objectives_names" in U(ds[0].args[0].args[0]) and ov is not None \
-            and isinstance(ds[0].args[0].args[1], ast.Subscript) and U(ds[0].args[0].args[1].value) == ov
+        ds = [d for d in local_defs(f, U(v)) if not isinstance(d, tuple)] if isinstance(v, ast.Name) else [v]
+        ok = len(ds) == 1 and isinstance(ds[0], ast.Call) and fn_name(ds[0]) == "dict" and ds[0].args
+        z = deref(f, ds[0].args[0]) if ok else None
+        ok = ok and isinstance(z, ast.Call) and fn_name(z) == "zip" and "objectives_names" in U(z.args[0]) and ov is not None \
+            and isinstance(deref(f, z.args[1]), ast.Subscript) and U(deref(f, z.args[1]).value) == ov
     rep.put(ok, "S4", "taint", "metrics_for_configuration: each level is a fresh dict(zip(names, table row))", f, None, "",
             "reported results are not fresh copies of the table row: later in-place corrections would alter the table")
     idx = None
@@ -234,7 +236,9 @@ def s6(ctx, rep):
         ok = bool(pr) and all(cfg.path(cfg.entry, x, deleted=adv) is None for x in pr)
         rep.put(ok, "S6", "must_precede", f"SimulatorBackend.{name}: outside time charged ≺ events processed", m, None, "")
     a = b.methods["_advance_by_outside_time"]
-    ok = "advance(self._time_keeper.real_time_since_last_recent_exit())" in U(a.node)
+    from ..engine import deref
+    adv = [x for x in walk_shallow(a.node) if isinstance(x, ast.Call) and fn_name(x) == "advance" and x.args]
+    ok = len(adv) == 1 and U(deref(a, adv[0].args[0])) == "self._time_keeper.real_time_since_last_recent_exit()"
     rep.put(ok, "S6", "agreement", "SimulatorBackend._advance_by_outside_time charges the real time since the last exit mark", a, None, "")
 
 
